@@ -42,6 +42,8 @@ def trees_for(family: str, tier: str):
         out += [s for k, s in enumerate(gen.plain_specs(4, min_n=4, alphabet=("a", "b"))) if k % 11 == 0]
         out += list(gen.eqpair_specs(3))
         out += [s for k, s in enumerate(gen.explicit_id_specs(3)) if k % 3 == 0]
+        # the same trees created level by level with prepended siblings: registration order of the index != pre-order
+        out += [gen.Spec(s.nodes, flavour="str~rev") for k, s in enumerate(gen.plain_specs(4, min_n=3, alphabet=("a", "b"))) if k % 5 == 2]
         # trees with a calc_data_id callback (identity-hashed objects keyed by .key): exercises the callback oracle
         out += [gen.Spec(s.nodes, flavour="keyed") for k, s in enumerate(gen.plain_specs(3, alphabet=("a", "b"))) if k % 4 == 1]
     if tier == "quick":
@@ -280,8 +282,9 @@ def run_case(qual, c, family, spec, tags: dict, args: dict, ev_budget=None):
     """returns (status, [failures], n_clauses) ; status in ok | pre-rejected | not-evaluable"""
     from native import gen
 
-    mk = gen.make_data_factory(spec.flavour)
-    tree, nodes = gen.build(spec, mk=mk)
+    base_flavour, _, order = spec.flavour.partition("~")
+    mk = gen.make_data_factory(base_flavour)
+    tree, nodes = gen.build(spec, mk=mk, flavour=base_flavour, order=order or "pre")
     other, _ = gen.build(gen.Spec(((-1, "o", None, "k1" if spec.typed else None),), typed=spec.typed), name="O")
     # materialise the concrete arguments from their descriptions
     amap = {}
@@ -443,7 +446,7 @@ def arg_descriptions(tag, spec, tree_nodes_n, clone_lists_n, rng):
             return [("lit", v) for v in ("key_a", "key_b", "idX", 5)]
         return [("lit", v) for v in ("a", "idX", 5, 0, hash("a"), hash("b"), 1, 2)]
     if tag == "kind":
-        return [("lit", v) for v in ("k1", "k2", "".join(["k", "1"]), "kx")]
+        return [("lit", v) for v in ("k1", "k2", "".join(["k", "1"]), "kx", "xk1y", "k")]
     if tag == "anykind":
         return [("anykind", None)]
     if tag == "lref":
@@ -467,7 +470,7 @@ def cases_for(qual, c, family, tier, rng, per_tree):
     out = []
     is_init = qual.endswith(".__init__")
     for spec in trees_for(family, tier):
-        tree, nodes = gen.build(spec)
+        tree, nodes = gen.build(spec, flavour=spec.flavour.partition("~")[0])
         n_nodes, n_cl = len(nodes), len(tree._nodes_by_data_id)
         combos = []
         for tagcombo in itertools.product(*[c.params[n] for n in names]):
@@ -522,7 +525,7 @@ def check_function(qual, tier="quick", per_tree=12, seed=0, verbose=False, max_f
             rep["clauses"] += n
             for clause, text in fails:
                 if len(rep["failures"]) < max_fail or verbose:
-                    rep["failures"].append({"qual": qual, "family": family, "spec": spec.short(), "spec_nodes": [list(r) for r in spec.nodes], "typed": spec.typed, "tags": tags,
+                    rep["failures"].append({"qual": qual, "family": family, "spec": spec.short(), "spec_nodes": [list(r) for r in spec.nodes], "typed": spec.typed, "flavour": spec.flavour, "tags": tags,
                                             "args": {k: list(v) for k, v in args.items()}, "clause": clause, "text": text})
     return rep
 
@@ -570,7 +573,7 @@ def main(argv=None):
         from native import gen
 
         w = json.load(open(a.replay))["witness"]
-        spec = gen.Spec(tuple(tuple(r) for r in w["spec_nodes"]), typed=w["typed"])
+        spec = gen.Spec(tuple(tuple(r) for r in w["spec_nodes"]), typed=w["typed"], flavour=w.get("flavour", "str"))
         st, fails, _n = run_case(w["qual"], reg[w["qual"]], w["family"], spec, w["tags"], {k: tuple(v) for k, v in w["args"].items()})
         hit = [(c, t) for c, t in fails if c == w["clause"]] or fails
         for c, t in hit:
